@@ -22,7 +22,8 @@ def parse(b, cfg=None, plugins=True):
     st = DataStream(bytes(b), byte_order='big', is_signed=False)
     try:
         eid, text = parsePEL(st, cfg, False)
-    except Exception as e:
+    except (Exception, SystemExit) as e:
+        # SystemExit: a decoder that calls exit() - reported like any other way of not producing a document
         return {'kind': 'exc', 'type': type(e).__name__, 'msg': str(e)[:200], 'index': st.index}
     if text == '' or text is None:
         return {'kind': 'empty', 'index': st.index, 'eid': eid}
